@@ -550,6 +550,7 @@ Proof.
   destruct (py_call_shape pp a) as [[npos kws]|]; auto with ood.
   destruct (negb (is_call a)); auto with ood.
   destruct (str_in "*" kws || str_in "**" kws); auto with ood.
+  destruct (has_repeat kws); auto with ood.
   destruct (List.length (p0 :: pr) <? npos) eqn:El; auto with ood.
   destruct (existsb _ kws); auto with ood.
   apply Nat.ltb_ge in El.
